@@ -369,12 +369,19 @@ func lowerGuarded(p *Prog, fn *ssa.Function, b *ssa.BasicBlock, val ssa.Value, s
 	return false, ""
 }
 
-// vf10Exceptions: frozen, per named construct, with the reason.
-var vf10Exceptions = map[string]string{
-	"(*wal.WAL).truncateTailLocked$1": "tail truncation runs only after DeleteRange classified min <= last and max >= last with the log non-empty (FD-01), so lastIndex() >= newMax = min-1 and every removed segment has BaseIndex > newMax >= MinIndex-1; the subtractions cannot wrap",
-}
+// vf10TxnReason: why `lastIndex() - x` inside a truncation transaction cannot wrap.
+const vf10TxnReason = "truncation transactions run only after DeleteRange classified min <= last and max >= last with the log non-empty (FD-01), so lastIndex() >= newMax = min-1 and every removed segment has BaseIndex > newMax >= MinIndex-1; the subtractions cannot wrap"
 
 func runVF10(p *Prog, r *RuleRun) {
+	// transaction bodies on DeleteRange's path (the one exception, see vf10TxnReason)
+	inTruncTxn := map[*ssa.Function]bool{}
+	if v, dr := newWalVocab(p), p.Func("", "WAL.DeleteRange"); dr != nil {
+		for fn := range p.reachableFuncs(dr) {
+			if v.isTxnSig(fn.Signature) && fn.Parent() != nil {
+				inTruncTxn[fn] = true
+			}
+		}
+	}
 	ord := ordinal{}
 	nSrc := 0
 	for _, fn := range p.Funcs {
@@ -397,7 +404,9 @@ func runVF10(p *Prog, r *RuleRun) {
 					}
 					nSrc++
 					key := ord.next(funcDisplay(fn) + ":sub(sentinel)")
-					if why, ok := vf10Exceptions[funcDisplay(fn)]; ok {
+					if why := vf10TxnReason; inTruncTxn[fn] && describeRoots(p, x.X) == "wal.state.lastIndex" {
+						// the reason given is about the snapshot's lastIndex() (which falls back to the previous
+						// segment for an empty tail); it does not cover the tail writer's own LastIndex()
 						r.OK(key, posOf(p, x), "tabled exception: "+why)
 						continue
 					}
